@@ -25,3 +25,8 @@ func VerifNewStreamReader(c *FCGIClient) io.Reader { return &streamReader{c: c} 
 func VerifReadResponse(r io.Reader, req *http.Request) (*http.Response, error) {
 	return readResponse(r, req)
 }
+
+// VerifStreamWrite calls streamWriter.Write(p) for record type recType and returns its (n, err).
+func VerifStreamWrite(c *FCGIClient, recType uint8, p []byte) (int, error) {
+	return (&streamWriter{c: c, recType: recType}).Write(p)
+}
